@@ -9,12 +9,17 @@ def fails(case):
     dd = dict(d); dd['case'] = case
     with tempfile.NamedTemporaryFile('w', suffix='.json', delete=False) as f:
         json.dump(dd, f); name = f.name
-    try:
-        out = subprocess.run(['/verif/target/release/tvv', 'replay', name], capture_output=True, text=True, timeout=120).stdout
-    except subprocess.TimeoutExpired:
-        out = ''
+    hit = False
+    for _ in range(int(os.environ.get('DDMIN_TRIES', '1'))):   # schedule-dependent failures: several attempts
+        try:
+            out = subprocess.run(['/verif/target/release/tvv', 'replay', name], capture_output=True, text=True, timeout=120).stdout
+        except subprocess.TimeoutExpired:
+            out = ''
+        if ('signature=' + want) in out:
+            hit = True
+            break
     os.unlink(name)
-    return ('signature=' + want) in out
+    return hit
 case = d['case']
 lst = case[key]
 assert fails(case), "does not fail initially"
